@@ -604,6 +604,11 @@ class Converter(object):
             return e
         if k == 'InitListExpr':
             ch = []
+            # clang puts the children of a partially initialised array under "array_filler": the filler first,
+            # then the explicit initialisers
+            af = n.get('array_filler')
+            if af and not inner:
+                inner = af[1:]
             for c in inner:
                 if isinstance(c, dict) and c.get('kind'):
                     ch.append(self.expr(c))
